@@ -1,6 +1,6 @@
 (* C16 -- witnesses: inputs of the property's quantifier where the faithful model of the pipeline does NOT give
    the Frame / the record back (one per known finding class that the model covers). *)
-Require Import SF.Prelude SF.Value Gen.Gen_c16 SF.Codec SF.CodecStruct.
+Require Import SF.Prelude SF.Value Gen.Gen_c16 SF.Codec.
 
 Definition tabc : ascii := "009"%char.
 Definition base_cfg (d : ascii) : cfg := mk_cfg d true true filter_default 1 1 [tx "__index0__"].
@@ -47,14 +47,3 @@ Proof.
   vm_compute. split; reflexivity.
 Qed.
 Print Assumptions C16_numpy2_int_first_refuted.
-
-
-(* pickle: Index.__setstate__ freezes _labels only; the positions arrays of both axes come back writeable *)
-Theorem C16_pickle_positions_refuted : exists f,
-  all_readonly f = true /\ all_readonly (M_unpickle f) = false.
-Proof.
-  exists (mk_pframe [mk_parray [VInt 1] false] (mk_parray [VStr "x"] false) (mk_parray [VInt 0] false)
-                    (mk_parray [VStr "p"] false) (mk_parray [VInt 0] false) [VNone; VNone; VNone]).
-  vm_compute. split; reflexivity.
-Qed.
-Print Assumptions C16_pickle_positions_refuted.
